@@ -376,7 +376,7 @@ pub fn run(tier: Tier, seed: u64, only: Option<String>) -> i32 {
         "failed_iff_send_failed",
     ];
     let bases = tier.pick(12, 48);
-    let randoms = tier.pick(300, 20_000);
+    let randoms = tier.pick(10_000, 400_000);
     rep.exhaustive = Some(true);
     rep.extras.insert("exhaustive_scope".into(), json!("every (socket call index x errno) pair of each listed base configuration"));
     match only {
